@@ -86,7 +86,13 @@ Definition encode_journal (generation state : N) (exts : list (N * N)) : list N 
   let c := journal_checksum img in
   splice (splice img 12 (le_bytes 4 c)) 32 (le_bytes 4 (N.lxor c MASK32)).
 
-Inductive jerr := JCorrupt.
+(* when encode_active accepts its arguments *)
+Definition encode_active_ok (generation : N) (exts : list (N * N)) : bool :=
+  negb (generation =? 0) && negb (N.of_nat (length exts) =? 0) &&
+  (N.of_nat (length exts) <=? ALLOCATION_JOURNAL_MAX_ENTRIES) &&
+  forallb (fun e => (fst e <? 4294967296) && (snd e <? 4294967296) &&
+                    (FEOX_DATA_START_BLOCK <=? fst e) && negb (snd e =? 0)) exts.
+
 
 Fixpoint decode_entries (d : list N) (off : nat) (count : nat) (total : N) : option (list (N * N)) :=
   match count with
